@@ -426,6 +426,14 @@ def run(ctx):
     rule_cone_selection(ctx, r4)
     r5 = ctx.rule("R5", "prerequisite targets are translated to the tracked job ids by name, all of them", min_instances=2)
     rule_id_lookup(ctx, r5)
+    from .schedmodel import cluster_witness
+    cw = cached_witness(ctx, "cluster", cluster_witness)
+    report_witness(r5, "src/gwf/backends::<X>Ops.submit_target::scheduler-model", "src/gwf/backends/slurm.py:1", cw,
+                   "several submissions on one Ops object: each job holds on exactly the ids it was given (0, 1, 3, 1025, 2050 of them) and nothing left over",
+                   select=lambda d: d.startswith("[submit]"))
+    report_witness(r1, "src/gwf/backends::<X>Ops.get_job_states::scheduler-model", "src/gwf/backends/slurm.py:1", cw,
+                   "a history with purged, running, failed, pending and finished jobs: every tracked id gets the state of its own job (a pending job never looks absent)",
+                   select=lambda d: d.startswith("[states]") and "changes the queue" not in d)
     r6 = ctx.rule("R6", "the 'stale' column of the table is the make-style decision (composition with C01: missing output, newest input vs oldest output)", min_instances=3)
     from .shared import import_rules
     import_rules(ctx, r6, "C01", only={"R1", "R2", "R3"})
